@@ -1933,6 +1933,10 @@ func (e *env) runGroup(kind string, c Case) {
 		e.runAlias(sg, ae, mc)
 	case "sigrot":
 		e.runSigRot(kind, e.idx(c.KT), c.KT)
+	case "bbsshape":
+		e.runBbsShapes(kind)
+	case "bbstext":
+		e.runBbsText(kind)
 	case "bbs":
 		n, _ := strconv.Atoi(strings.SplitN(c.Variant, "/", 2)[0])
 		if n <= 0 {
@@ -2049,6 +2053,9 @@ func main() {
 
 			e.runBbs("bbs", n, g)
 		}
+
+		e.runBbsShapes("bbsshape")
+		e.runBbsText("bbstext")
 	}
 
 	for _, i := range aeads {
